@@ -264,7 +264,8 @@ class Executor(Ops2):
             disj = z3.Or([z3.Not(c) for (_, c) in pend])
             hit = st.model is not None and z3.is_true(st.model.eval(disj, model_completion=True))
             if not hit:
-                r, m = self.check(disj, st)
+                # the joint query is an optimisation: undecided quickly = decide the assertions one by one
+                r, m = self.check(disj, st, no_fallback=True)
                 if r == 'unsat':
                     for (label, c) in pend:
                         a = self.asserts.setdefault(label, dict(checked=0, proved=0, violations=[], unknown=0, panic=False))
